@@ -45,6 +45,11 @@ def repo_programs(repo_root):
     return out
 
 
+_PREFIX_NAMES = (HDR + "def tick():\n    db.Setting = %d\n\ndef tick_slow():\n    d0.Setting = %d\n\ndef tick_slow_er():\n    d1.Setting = %d\n\n"
+                 "def update():\n    tick()\n    tick_slow()\n\ndef update_display():\n    tick_slow_er()\n    tick()\n\n"
+                 "while True:\n    update()\n    update_display()\n    tick_slow()\n    tick_slow_er()\n    update()\n    update_display()\n    yield_()\n")
+
+
 # --- M: output-mode channel -----------------------------------------------------------------------
 def family_M(n):
     v = 3 + n
@@ -60,6 +65,13 @@ def family_M(n):
         ("M/slot", HDR + "srt = Sorter(d0)\ndb.Setting = srt[0].Quantity\nd1.Setting = srt[%d].OccupantHash\n" % (n % 3)),
         ("M/batch_mode_enum", HDR + "x = SolarPanels.Vertical.Maximum\ny = SolarPanels.Minimum.Horizontal\ndb.Setting = x + y + %d\n" % v),
         ("M/float", HDR + "db.Setting = 0.000%d5\nd1.Setting = 1.5e%d\nd2.Setting = %d.25\n" % (n + 1, n + 2, v)),
+        # function names that are prefixes of one another (labels `tick`, `tick.slow`, ...), not inlined (called twice)
+        # generated batch devices whose prefab hash is a large positive number (decimal only because it is a known hash)
+        ("M/batch_positive_hash", HDR + "while True:\n    yield_()\n    Autolathes.On = PipeAnalysizers[\"Feed%d\"].Pressure.Average > 100\n" % n),
+        ("M/batch_positive_hash_compact", "# pytrapic: compact, remove-labels\n" + HDR + "while True:\n    yield_()\n    Autolathes.On = PipeAnalysizers[\"Feed%d\"].Pressure.Average > 100\n" % n),
+        ("M/prefix_names", _PREFIX_NAMES % (v, v + 1, v + 2)),
+        ("M/prefix_names_pragma", "# pytrapic: remove-labels, no-inline-functions\n" + _PREFIX_NAMES % (v, v + 1, v + 2)),
+        ("M/prefix_names_compact", "# pytrapic: remove-labels, no-inline-functions, compact\n" + _PREFIX_NAMES % (v + 1, v, v + 2)),
     ]
 
 
@@ -104,6 +116,12 @@ def family_K(n):
     out.append(("K/nested_constexpr", HDR + "@constexpr\ndef g(x):\n    return x + %d\n@constexpr\ndef f(x):\n    return g(x) * 2\ndb.Setting = f(3)\n" % n))
     out.append(("K/in_loop", HDR + "@constexpr\ndef f(x):\n    return x * x + %d\nwhile True:\n    db.Setting = f(4)\n    yield_()\n" % n))
     out.append(("K/undefined_name", HDR + "@constexpr\ndef f(x):\n    return x + undefined_thing_%d\ndb.Setting = f(1)\n" % n))
+    # the same constexpr function and call further down in the file (as after the user inserted lines above it):
+    # identical evaluation script, different position of the call
+    shift = "".join("# line %d of a comment block\n" % i for i in range(17))
+    for ident, src in list(out):
+        if ident in ("K/raises", "K/raises_custom", "K/undefined_name", "K/sys_exit3", "K/same_call_body0", "K/spins", "K/returns_nan"):
+            out.append((ident + "_shifted", src.replace(HDR, HDR + shift, 1)))
     return out
 
 
@@ -155,6 +173,8 @@ def family_D(n):
         ("D/explicit_regs", HDR + "r%d = 5\ndb.Setting = r%d\nsp = 10\npush(r%d)\n" % (n % 8, n % 8, n % 8)),
         ("D/generic_device", HDR + "dev = Device(d3)\ndev.Setting = %d\nx = dev.Temperature\ndb.Setting = x\n" % v),
         ("D/generic_devices", HDR + "devs = Devices(HASH(\"StructureWallLight\"))\ndevs.On = %d\n" % (v % 2)),
+        ("D/generic_devices_numeric", HDR + "buttons = Devices(1462769197, \"panel%d\")\ndb.Setting = buttons.Setting.Maximum\n" % n),
+        ("D/generic_devices_numeric2", HDR + "things = Devices(%d)\nthings.On = 1\n" % (123456789 + n)),
         ("D/ref_id_device", HDR + "light = GrowLight(ref_id=%d)\nlight.Lock = True\n" % (0x123 + n)),
         ("D/plain_then", HDR + "p = SolarPanel(d1)\np.Horizontal = %d\nq = SolarPanel(d2)\nq.Horizontal = p.Horizontal\n" % v),
         ("D/reassign_error", HDR + "p = SolarPanel(d1)\np = SolarPanel(d2)\np.Horizontal = %d\n" % v),
@@ -184,6 +204,12 @@ def family_L(n):
         main += "    total += 1\n    db.Setting = total\n"
         mods[""] = main
         out.append(("L/libs%d" % count, mods))
+    # a library that is submitted but never imported (the host sends its whole library folder)
+    mods = {"alpha": lib("alpha", n), "zeta": lib("zeta", n + 3), "beta": lib("beta", n + 1)}
+    mods[""] = HDR + "from library import alpha\nfrom library import beta\nalpha.init()\nbeta.init()\nwhile True:\n    alpha.update()\n    beta.update()\n    yield_()\n"
+    out.append(("L/unused_extra", mods))
+    mods = {"zeta": lib("zeta", n), "": HDR + "db.Setting = %d\n" % n}
+    out.append(("L/unused_only", mods))
     # import alias
     mods = {"alpha": lib("alpha", n), "beta": lib("beta", n + 1)}
     mods[""] = HDR + "from library import alpha as A\nfrom library import beta as B\nA.init()\nB.init()\nwhile True:\n    A.update()\n    B.update()\n    yield_()\n"
@@ -284,6 +310,28 @@ def family_E(n):
     ]
 
 
+def family_OE(n):
+    """a directive line on top of sources that fail in different ways (directive handling runs before the compiler's
+    own error handling is set up)"""
+    want = ("E/syntax", "E/syntax_unclosed", "E/syntax_indent", "E/syntax_tab", "E/break_toplevel", "E/recursion_direct",
+            "E/nul_byte", "E/crlf", "E/cr_only", "E/form_feed", "E/surrogate", "E/bom", "E/lua", "E/empty", "E/only_ws",
+            "E/deep_parens", "E/unicode_ident", "E/string_only")
+    out = []
+    extra = [("dedent", HDR + "def f():\n        x = %d\n    db.Setting = x\nf()\n" % n),
+             ("tab_space", HDR + "if True:\n        x = 1\n\ty = %d\n" % n),
+             ("unterminated_str", HDR + "s = \"abc %d\n" % n),
+             ("unterminated_triple", HDR + "s = \"\"\"abc %d\n" % n),
+             ("backslash_eof", HDR + "x = %d + \\" % n)]
+    for ident, src in family_E(n):
+        if ident in want:
+            extra.append((ident[2:], src))
+    for name, src in extra:
+        for dname, d in (("compact", "# pytrapic: compact\n"), ("multi", "# pytrapic: no-inline-functions, remove-labels\n")):
+            out.append(("O/%s+%s" % (dname, name), d + src))
+        out.append(("O/end+%s" % name, src + "\n# pytrapic: compact\n"))
+    return out
+
+
 def family_E_modules(n):
     main = HDR + "from library import gone\ngone.init()\ndb.Setting = %d\n" % n
     badlib = HDR + "def init(:\n    pass\n"
@@ -312,7 +360,7 @@ def build(repo_root, n_values=(0, 1)):
     entries = repo_programs(repo_root)
     for n in n_values:
         suffix = "" if n == 0 else "#%d" % n
-        for fam, fn in (("M", family_M), ("K", family_K), ("K", family_K_lib), ("O", family_O), ("D", family_D),
+        for fam, fn in (("M", family_M), ("K", family_K), ("K", family_K_lib), ("O", family_O), ("O", family_OE), ("D", family_D),
                         ("L", family_L), ("E", family_E), ("E", family_E_modules)):
             for e in _entries(fn(n), fam):
                 e["id"] += suffix
